@@ -17,6 +17,7 @@ type SchedChooser = vsched.Chooser
 // RunExec runs main under the controlled scheduler.
 func RunExec(ch SchedChooser, preemptive bool, stepLimit int64, main func()) ExecResult {
 	gkvlite.VerifReset()
+	vsched.MapOrderDesc = false
 	return vsched.Run(vsched.Config{Chooser: ch, Preemptive: preemptive, StepLimit: stepLimit}, main)
 }
 
@@ -49,6 +50,10 @@ const (
 	ClassFault = vsched.ClassFault
 	ClassCrash = vsched.ClassCrash
 )
+
+// SetMapOrderDesc selects the order in which the instrumented library iterates
+// over its string-keyed maps (Go leaves it undefined).
+func SetMapOrderDesc(desc bool) { vsched.MapOrderDesc = desc }
 
 // Quiesce lets every other thread run until it finishes or blocks.
 func Quiesce() { vsched.Quiesce() }
